@@ -77,8 +77,14 @@ fn match_path_segments(segments: &[&str], old_segments: &[PathSegment]) -> Optio
         }
     }
 
-    // if iter is empty, perfect match !
-    segments_iter.next().is_none().then_some(optionals)
+    // perfect match if what is left of the route can match nothing (an empty splat, unset optional params).
+    segments_iter
+        .all(|(_, seg)| match seg {
+            PathSegment::Unit | PathSegment::OptionalParam(_) | PathSegment::Splat(_) => true,
+            PathSegment::Static(s) => s.is_empty(),
+            PathSegment::Param(_) => false,
+        })
+        .then_some(optionals)
 }
 
 /// Remove `segment` from the start of `path` only if it is a whole path segment (ignoring leading slashes).
